@@ -5,7 +5,7 @@ package sm4
 // Thin exported wrappers around the in-package assembly kernels so that the harness can
 // place their pointer arguments against guard pages. Pointers are passed through as is.
 
-func VerifExpandKeyAsm(key *byte, enc, dec *uint32)      { expandKeyAsm(key, enc, dec) }
+func VerifExpandKeyAsm(key *byte, enc, dec *uint32)     { expandKeyAsm(key, enc, dec) }
 func VerifCryptoBlockAsm(rk *uint32, dst, src *byte)    { cryptoBlockAsm(rk, dst, src) }
 func VerifCryptoBlockAsmX2(rk *uint32, dst, src *byte)  { cryptoBlockAsmX2(rk, dst, src) }
 func VerifCryptoBlockAsmX4(rk *uint32, dst, src *byte)  { cryptoBlockAsmX4(rk, dst, src) }
